@@ -3,6 +3,7 @@ package query
 import (
 	"errors"
 	"fmt"
+	"regexp"
 	"strings"
 	"testing"
 
@@ -436,6 +437,10 @@ func TestC24(t *testing.T) {
 			bigSmallCase(t, rec)
 			return
 		}
+		if gen.Chance(t, "moveupdate", 14) {
+			moveUpdateCase(t, rec)
+			return
+		}
 		d := genDb(t)
 		d.build()
 		defer d.release()
@@ -673,6 +678,119 @@ func bigSmallCase(t *rapid.T, rec *ev.Rec) {
 	}
 	rec.Label("insert_source_big_small_" + []string{"join", "join", "leftjoin", "leftjoin", "times"}[shape])
 	judgeStmt(t, rec, d, s)
+}
+
+var readIndexRe = regexp.MustCompile(`tu\^\(([a-z0-9_,]*)\)`)
+
+// moveUpdateCase: updates that assign a column of the index the update reads
+// by. Table tu (10-40 rows) has key(k) and an index / unique index / second key
+// that starts with the key and continues with a non-key column (also plain
+// indexes on that column); the where has ranges on the trailing column and on
+// the key, the set moves rows forward or backward inside or out of the range.
+// Count and table are compared exactly.
+func moveUpdateCase(t *rapid.T, rec *ev.Rec) {
+	pk := func(i int) string { return core.Pack(core.IntVal(i).(core.Packable)) }
+	tu := &tableT{name: "tu", cols: []colT{{name: "k", typ: tNum}, {name: "n1", typ: tNum}, {name: "s1", typ: tStr}, {name: "n2", typ: tNum}},
+		keys: [][]string{{"k"}}}
+	onStr := gen.Chance(t, "mu_str", 25)
+	trail := "n1"
+	if onStr {
+		trail = "s1"
+	}
+	switch gen.Weighted(t, "mu_index", []int{5, 2, 2, 1}) {
+	case 0:
+		tu.indexes = [][]string{{"k", trail}}
+	case 1:
+		tu.uniques = [][]string{{"k", trail}}
+	case 2:
+		tu.keys = append(tu.keys, []string{"k", trail})
+	default:
+		tu.indexes = [][]string{{"k", trail, "n2"}}
+	}
+	if gen.Chance(t, "mu_plainidx", 35) {
+		tu.indexes = append(tu.indexes, []string{trail})
+	}
+	strs := []lit{strLits[1], strLits[2], strLits[3], strLits[5], mkLit(`"c"`, tStr), mkLit(`"d"`, tStr)}
+	n := rng(t, "mu_nrows", 10, 40)
+	for i := 1; i <= n; i++ {
+		tu.rows = append(tu.rows, []string{pk(i), pk(rng(t, "mu_a", 0, 9)), pickOf(t, "mu_s", strs).packed, pk(i % 3)})
+	}
+	d := &dbT{tables: []*tableT{tu}}
+	d.build()
+	defer d.release()
+	num := func(i int) *exprT { return constExpr(mkLit(fmt.Sprint(i), tNum)) }
+	kc, ac, sc := colExpr(tu.cols[0]), colExpr(tu.cols[1]), colExpr(tu.cols[2])
+	for si := 0; si < rng(t, "mu_nstmts", 1, 2); si++ {
+		var terms []*exprT
+		if gen.Chance(t, "mu_kterm", 70) {
+			terms = append(terms, bin(pickOf(t, "mu_kop", []string{">", ">=", "<="}), kc, num(rng(t, "mu_kval", 0, n)), tBool))
+		}
+		var set *exprT
+		var setText string
+		if onStr {
+			lo, hi := pickOf(t, "mu_slo", strs), pickOf(t, "mu_shi", strs)
+			if lo.packed > hi.packed {
+				lo, hi = hi, lo
+			}
+			terms = append(terms, bin(">=", sc, constExpr(lo), tBool), bin(pickOf(t, "mu_shiop", []string{"<", "<="}), sc, constExpr(hi), tBool))
+			switch gen.Uniform(t, "mu_sset", 3) {
+			case 0:
+				set = bin("$", sc, constExpr(mkLit(`"x"`, tStr)), tStr)
+			case 1:
+				set = constExpr(pickOf(t, "mu_sconst", strs))
+			default:
+				set = bin("$", constExpr(mkLit(`"a"`, tStr)), sc, tStr)
+			}
+		} else {
+			lo := rng(t, "mu_lo", 0, 8)
+			hi := rng(t, "mu_hi", lo, 10)
+			terms = append(terms, bin(">=", ac, num(lo), tBool), bin(pickOf(t, "mu_hiop", []string{"<", "<="}), ac, num(hi), tBool))
+			switch gen.Uniform(t, "mu_set", 5) {
+			case 0, 1:
+				set = bin("+", ac, num(rng(t, "mu_inc", 1, 2)), tNum)
+			case 2:
+				set = bin("-", ac, num(1), tNum)
+			case 3:
+				set = num(rng(t, "mu_const", lo, max(lo, hi)))
+			default:
+				set = bin("*", ac, num(2), tNum)
+			}
+		}
+		setText = trail + " = " + set.String()
+		var w *exprT = terms[0]
+		if len(terms) > 1 {
+			w = &exprT{op: "and", typ: tBool, args: terms}
+		}
+		q := &qnode{op: "where", src: tableNode(tu), expr: w, out: tu.cols}
+		s := &stmtT{kind: "update", table: tu, q: q, text: "update " + q.String() + " set " + setText}
+		d.predictUpdate(s, q, []string{trail}, []*exprT{set})
+		// which index does the update read by?
+		if err := catch(func() {
+			ut := d.db.NewUpdateTran()
+			defer ut.Abort()
+			sq := qry.SetupKey(qry.ParseQuery(q.String(), ut, nil), qry.UpdateMode, ut)
+			if m := readIndexRe.FindStringSubmatch(qry.String(sq)); m != nil {
+				rec.Label("update_reads_by_index(" + m[1] + ")")
+				if contains(strings.Split(m[1], ","), trail) {
+					rec.Label("update_read_index_contains_assigned_column")
+					moved := false
+					for i := range tu.rows {
+						if s.after != nil && i < len(s.after) && s.after[i][tu.colIndex(trail)] > tu.rows[i][tu.colIndex(trail)] {
+							r, err := d.evalOn(snapT{"tu": s.after[i : i+1]}, q)
+							if err == nil && len(r.rows) > 0 {
+								moved = true
+							}
+						}
+					}
+					rec.LabelIf(moved, "update_moves_row_ahead_in_read_index_and_still_matches")
+				}
+			}
+		}); err != nil {
+			t.Fatalf("C24: SetupKey failed: %v\nstatement: %s", err, s.text)
+		}
+		rec.Label("move_update_case")
+		judgeStmt(t, rec, d, s)
+	}
 }
 
 func dbDescribeWith(d *dbT, tb *tableT, rows [][]string) string {
